@@ -1,3 +1,144 @@
+"""C09 - drag used by the solver is faithful to the drag table and BC definition."""
+import time
+
 LEVEL = 'proof'
-EXPLANATION = 'C09 drag look-up'
-EXTRA = []
+EXPLANATION = ('calculate_curve (loop invariant: entry k is the parabola through table points k-1..k+1, entry 0 the line through '
+               'points 0,1), _get_only_mach_data, the binary search _calculate_by_curve_and_mach_list (invariant, variant, the '
+               'selected entry passes through both neighbours of the query; last three points beyond the table) and '
+               'drag_by_mach (x 2.08551e-4 / BC) under contract for ANY table of >= 3 strictly ascending points and any Mach; '
+               '_init_trajectory history harnesses (fresh calculator, calculator used for another shot, table edited in place '
+               'between uses) show the solver\'s curve/table/BC are those of the current shot; make_data_points/DragModel frames. '
+               'Shipped tables: the REAL search function is executed symbolically (loop unrolled with forking) on each table '
+               'with a symbolic Mach over the whole table span: on every path the selected polynomial is positive and within '
+               '5% of the linear interpolant (univariate real arithmetic, all real Mach - not sampling); tables ascending from '
+               'Mach 0 and equal to the committed snapshot + literature spot values; the drag constant lemma.')
+NOT_DECIDED = ['"are the published tables": snapshot of the pinned tables + three literature spot values (no offline copy of the '
+               'publications)']
+EXTRA = ['lemma_drag_constant', 'tables_ascending_snapshot'] + [f'table_band_{n}' for n in
+                                                                ('G1', 'G7', 'G2', 'G5', 'G6', 'G8', 'GI', 'GS', 'RA4')]
+
+
+def lemma_drag_constant(tier, seed):
+    """2.08551e-04 = standard air density 0.076474 lb/ft^3 x pi / (8 x 144), to 1e-6 relative"""
+    from fractions import Fraction
+    from pyvc.scan import result, obl
+    t0 = time.time()
+    k = Fraction('2.08551e-04')
+    lo = Fraction('0.076474') * Fraction('3.14159265358979') / 1152
+    hi = Fraction('0.076474') * Fraction('3.14159265358980') / 1152
+    ok = abs(k - lo) <= Fraction(1, 10 ** 6) * lo and abs(k - hi) <= Fraction(1, 10 ** 6) * hi
+    o = obl('lemma::drag-constant', ok, f'|2.08551e-04 - 0.076474*pi/1152| <= 1e-6 relative (pi enclosed in '
+                                        f'[3.14159265358979, 3.14159265358980]; exact rational arithmetic)', kind='lemma')
+    o['backend'] = 'exact rational arithmetic'
+    return result('lemma:drag-constant', [o], t0, props=('C09',))
+
+
+def tables_ascending_snapshot(tier, seed):
+    import hashlib
+    import json
+    import os
+    import warnings
+    warnings.simplefilter('ignore')
+    import py_ballisticcalc as P
+    from pyvc.scan import result, obl
+    t0 = time.time()
+    here = os.path.dirname(os.path.dirname(os.path.abspath(__file__)))
+    snap = json.load(open(os.path.join(here, 'contracts', 'tables_snapshot.json')))
+    obls = []
+    for name in ('G1', 'G7', 'G2', 'G5', 'G6', 'G8', 'GI', 'GS', 'RA4'):
+        t = getattr(P, 'Table' + name)
+        asc = t[0]['Mach'] == 0 and all(a['Mach'] < b['Mach'] for a, b in zip(t, t[1:]))
+        obls.append(obl(f'table::{name}-ascending-from-mach-0', asc, f'Table{name}: {len(t)} rows, Mach strictly ascending from 0',
+                        kind='enumeration'))
+        h = hashlib.sha256(json.dumps([[r['Mach'], r['CD']] for r in t]).encode()).hexdigest()
+        obls.append(obl(f'table::{name}-equals-snapshot', h == snap[name], f'Table{name} sha256 {h[:16]}.. equals the committed '
+                        f'snapshot of the pinned tables', kind='enumeration'))
+    spots = [('G1', 1.0, 0.4805), ('G7', 1.0, 0.3803), ('G1', 0.0, 0.2629)]
+    for name, m, cd in spots:
+        t = getattr(P, 'Table' + name)
+        v = [r['CD'] for r in t if r['Mach'] == m]
+        obls.append(obl(f'table::{name}-spot-{m}', v == [cd], f'Table{name}(Mach {m}) = {cd} (published value)', kind='enumeration'))
+    for o in obls:
+        o['backend'] = 'concrete check of the live tables (exhaustive)'
+    return result('tables:ascending-snapshot', obls, t0, props=('C09',))
+
+
+def _band(name):
+    """the real look-up executed symbolically over the whole span of one shipped table"""
+    import warnings
+    warnings.simplefilter('ignore')
+    import z3
+    from fractions import Fraction
+    import py_ballisticcalc as P
+    import py_ballisticcalc.trajectory_calc._trajectory_calc as tc
+    from py_ballisticcalc.drag_model import make_data_points
+    from pyvc.repoindex import get_index
+    from pyvc.state import Ctx, State
+    from pyvc.interp import Interp
+    from pyvc.values import SNum, SList, SRec, Raised, zreal
+    from pyvc.scan import result, obl
+    t0 = time.time()
+    table = getattr(P, 'Table' + name)
+    pts = make_data_points(table)
+    curve = tc.calculate_curve(pts)                 # the real function, natively; its floats are exact rationals
+    xs = [Fraction(p.Mach) for p in pts]
+    ys = [Fraction(p.CD) for p in pts]
+    idx = get_index()
+    info = idx.find('py_ballisticcalc/trajectory_calc/_trajectory_calc.py', '_calculate_by_curve_and_mach_list')
+    ctx = Ctx(f'band:{name}')
+    ip = Interp(ctx, idx, {}, {})
+    ip.force_unroll = True
+    ip.modular = False
+    st = State()
+    st.push(info)
+    mach = z3.Real('mach')
+    st.pc.append(mach >= zreal(xs[0]))
+    st.pc.append(mach <= zreal(xs[-1]))
+    ml = SList(items=list(xs))
+    cv = SList(items=[SRec(tc.CurvePoint, {'a': Fraction(c.a), 'b': Fraction(c.b), 'c': Fraction(c.c)}) for c in curve])
+    ctx.spec_depth += 1        # no safety obligations: indexes are concrete here
+    outs = [(v, list(s.pc)) for v, s in ip.call_function(info, [ml, cv, SNum(mach)], {}, st, None) if not isinstance(v, Raised)]
+    ctx.spec_depth -= 1
+    obls = []
+    bad = []
+    n_paths = 0
+    for v, pc in outs:
+        s0 = z3.Solver()
+        s0.add(*pc)
+        if s0.check() != z3.sat:
+            continue
+        n_paths += 1
+        val = zreal(v)
+        # linear interpolant of the table on the interval containing mach
+        disj = []
+        for k in range(len(xs) - 1):
+            L = zreal(ys[k]) + (zreal(ys[k + 1]) - zreal(ys[k])) / (zreal(xs[k + 1]) - zreal(xs[k])) * (mach - zreal(xs[k]))
+            disj.append(z3.And(mach >= zreal(xs[k]), mach <= zreal(xs[k + 1]), val > 0, val - L <= L / 20, L - val <= L / 20))
+        s = z3.Solver()
+        s.set('timeout', 20000)
+        s.add(*pc)
+        s.add(z3.Not(z3.Or(*disj)))
+        r = s.check()
+        if r != z3.unsat:
+            bad.append((str(r), str(s.model()[mach]) if r == z3.sat else None))
+    ok = not bad and n_paths >= len(xs) - 2
+    o = obl(f'table::{name}-positive-and-within-5-percent-of-linear-interpolant', ok,
+            f'Table{name}: on all {n_paths} paths of the real look-up over Mach in [{float(xs[0])}, {float(xs[-1])}] the drag '
+            f'coefficient used is positive and within 5% of the linear interpolant of the neighbouring entries' +
+            (f'; FAILED at {bad[:3]}' if bad else ''), kind='table-band')
+    o['backend'] = f'symbolic execution of the real search (loop unrolled, {n_paths} feasible paths) + z3 nonlinear real arithmetic'
+    o['time'] = round(time.time() - t0, 2)
+    if bad and bad[0][1]:
+        o['inputs'] = {'mach': bad[0][1], 'table': name}
+    return result(f'table-band:{name}', [o], t0, props=('C09',))
+
+
+def _mk_band(n):
+    def f(tier, seed):
+        return _band(n)
+    f.__name__ = f'table_band_{n}'
+    return f
+
+
+for _n in ('G1', 'G7', 'G2', 'G5', 'G6', 'G8', 'GI', 'GS', 'RA4'):
+    globals()[f'table_band_{_n}'] = _mk_band(_n)
